@@ -29,23 +29,30 @@ CLAIMED = {
              "call yields exactly the declared number of values; return stores _rv0.. in order and the call site copies them into fresh helpers right after the call line; "
              "parameters are local copies of $1..$n in order; name mangling; each function gets a new counter; multi-assignment reads only _ma<i> temporaries. Tie: whole model "
              "pipeline vs real Transpile byte for byte, and in every run Sem2/Bash next to /bin/bash and Sem2/Src next to the reference interpreter on the generated programs "
-             "(about 300 of 406 in the theorem's fragment in the quick tier); recursion, slices and command calls are outside the fragment and covered by the execution oracle only.",
+             "(406 of 406 in the theorem's fragment in the quick tier; the fragment also contains slices, len, string subscripts and copy - see C03); command calls, file builtins and input are outside the fragment and covered by the execution oracle only (the language has no recursion: define-before-use is its own rule).",
         note=TB + "that /bin/bash executes the rendered lines as Sem2/Bash says (in particular `local`, positional parameters, `return`) and that Sem2/Src is Go's meaning is validated by execution in every run, not proved.",
         technique="Lean 4 compiler-correctness theorem for programs with functions (source semantics vs bash model) + theorems on the calling-convention model + byte-for-byte correspondence + both semantic models validated against /bin/bash and the reference interpreter + execution oracle",
         design="7/C02"),
     "C03": dict(
-        text="Theorems (Props/C03.lean): slice literal = increment _dvc, name a new array, store elements 0..n-1 in order; element store = one _sah call with the zero value of the "
-             "element type; functional models of the helper routines _sah (grow/fill/store), _sch (copy, keep rest, report len(src)) and _ssh (inclusive pair = Go half-open slice, "
-             "empty slice included) with their algebraic laws. Aliasing and execution: oracle.",
-        note=TB + "the helper routines are fixed text in the script (covered by the correspondence); that bash runs them as the functional models say is assumed and sampled by the oracle.",
-        technique="Lean 4 theorems on emitted lines and on functional models of the helper routines + correspondence + execution oracle",
+        text="SEMANTIC PRESERVATION (Props/C03Sem.lean, bash_preserves_slice_and_string_semantics = the theorem of C02 read for this property): the fragment contains slice "
+             "literals, element reads, element assignment with gap fill by the zero value, len of slices and strings, copy, s[i], s[a:b], s[a:], s[:b], slices passed to and "
+             "returned from functions and shared between variables (reference semantics, a store of numbered slices on the source side, the arrays _dv<n> and the counter _dvc on "
+             "the bash side, kept in step by the invariant HeapOK); the emitted script, run in the Lean bash model, prints what the source semantics prints. The helper routines "
+             "_sah/_sch/_ssh are primitives of the bash model (their text is fixed); defining them is part of the executed script (helperCmds) and extra definitions change no "
+             "execution (execCmds_addH). Also (Props/C03.lean): slice literal = increment _dvc, name a new array, store elements in order; element store = one _sah call with the "
+             "zero value; functional models of _sah, _sch, _ssh with their laws. Tie: byte-for-byte correspondence of the emitter model, and in every run Sem2/Bash next to "
+             "/bin/bash and Sem2/Src next to the reference interpreter (405 of 406 generated programs run in both models and agree, all 406 in the theorem's fragment).",
+        note=TB + "that /bin/bash runs the fixed text of _sah/_sch/_ssh, `eval` array access and ${#..} as the primitives of Sem2/Bash say is validated by execution in every run, not proved; strings are ASCII in the fragment.",
+        technique="Lean 4 compiler-correctness theorem covering slices and string operations (source semantics with a slice store vs bash model with arrays) + theorems on emitted lines and helper-routine models + byte-for-byte correspondence + both semantic models validated against /bin/bash and the reference interpreter",
         design="7/C03"),
     "C04": dict(
         text="Theorems (Props/C04.lean) for every expression and every converter: the walk requests exactly opCount(e) operations (each operand once; single string index evaluated "
              "once), operands left to right then the operation, && and || eager, all if/else-if conditions before the if is opened, loop order init/for/incr/cond/test/body. "
-             "Run-time effect order: tracer oracle on executions.",
-        note=TB + "the order of AST children vs source order is the parser's part (AST correspondence).",
-        technique="Lean 4 theorems with a tracing converter (order and multiplicity of converter operations) + correspondence + tracer oracle",
+             "SEMANTIC SIDE (Props/C04Sem.lean): for every program of the fragment of the C02 theorem the script's output is the output of the source semantics, in order - so every "
+             "observable effect of operand evaluation (tracer functions) happens as often and in the order the source semantics says (each operand once, left to right, both operands "
+             "of && and ||, all chain conditions first). Run-time effect order outside the fragment: tracer oracle on executions.",
+        note=TB + "the order of AST children vs source order is the parser's part (AST correspondence); that Sem2/Src states Go's order is validated against the reference interpreter.",
+        technique="Lean 4 theorems with a tracing converter (order and multiplicity of converter operations) + compiler-correctness theorem (effects of operand evaluation preserved in order) + correspondence + tracer oracle",
         design="7/C04"),
     "C05": dict(
         text="Theorems (Props/C05.lean) about the Batch emitter model, for every program without any hypothesis: every statement leaves parenthesis depth and the heights of the if/loop/"
